@@ -15,6 +15,12 @@
 //   - statements: := = op= ++ -- var, if/else, switch (with and without tag, no fallthrough), return,
 //     named results; early returns become nested if-then-else; no loops, no calls except conversions and
 //     calls of other translated functions of the same package;
+//   - a []byte parameter is modelled as the LOG of the writes made through it, a list of (index, byte)
+//     pairs in program order: buf[i] = e, binary.BigEndian.PutUint16/32/64(buf, e); the log is returned
+//     as an extra last component of the result (reads of the buffer are not supported);
+//   - `for i := a; i < b; i++ { body }` with a body that neither assigns i nor leaves the loop becomes a
+//     local structural recursion on Z.to_nat (b - a) over the variables the body assigns;
+//   - calls x.M() of a translated method M of the receiver's type on the receiver;
 //   - fields of the receiver / of parameters (b.bits) and identifiers of other packages
 //     (block.BitsPerBlock) and - in local-expression mode - locals not defined by the extracted
 //     expressions become explicit parameters of the generated definition, in order of first use.
@@ -28,6 +34,7 @@ import (
 	"go/token"
 	"go/types"
 	"path/filepath"
+	"sort"
 	"strings"
 )
 
@@ -41,6 +48,8 @@ type fnSpec struct {
 var fnSpecs = []fnSpec{
 	{"net/packet", "VarInt", "Len", nil},
 	{"net/packet", "VarLong", "Len", nil},
+	{"net/packet", "VarInt", "WriteToBytes", nil},
+	{"net/packet", "VarLong", "WriteToBytes", nil},
 	{"net/packet", "Position", "WriteTo", []string{"position"}},
 	{"net/packet", "Position", "ReadFrom", []string{"x", "y", "z"}},
 	{"level", "", "calcBitStorageSize", nil},
@@ -74,6 +83,10 @@ type trans struct {
 	results  []string          // Go names of named results (may be empty)
 	nres     int
 	localsOK bool // unknown plain identifiers become parameters (local-expression mode)
+	bufs     []string        // Go names of []byte parameters: modelled as the log of (index, byte) writes
+	recvName string          // Go name of the receiver variable ("" if none)
+	recvType string          // receiver type name
+	fall     func() string   // when set: what falling off the end of the current statement list means
 }
 
 func (t *trans) fail(n ast.Node, f string, a ...any) {
@@ -286,6 +299,13 @@ func (t *trans) expr(e ast.Expr) string {
 				return "(" + strings.Join(args, " ") + ")"
 			}
 		}
+		if sel, ok := x.Fun.(*ast.SelectorExpr); ok && len(x.Args) == 0 {
+			if id, ok := sel.X.(*ast.Ident); ok && t.recvName != "" && id.Name == t.recvName {
+				if c, ok := t.known[t.recvType+"."+sel.Sel.Name]; ok {
+					return "(" + c + " " + t.expr(id) + ")"
+				}
+			}
+		}
 		t.fail(e, "call of a function that is not translated")
 	}
 	t.fail(e, "unsupported expression %T", e)
@@ -295,6 +315,9 @@ func (t *trans) expr(e ast.Expr) string {
 type popMarker struct{ ast.EmptyStmt }
 
 func (t *trans) resultTuple(n ast.Node) string {
+	if t.fall != nil {
+		return t.fall()
+	}
 	if len(t.results) == 0 {
 		t.fail(n, "control reaches the end of a function without named results")
 	}
@@ -303,7 +326,61 @@ func (t *trans) resultTuple(n ast.Node) string {
 		c, _ := t.lookup(r)
 		rs = append(rs, c)
 	}
-	return tuple(rs)
+	return tuple(t.withBufs(rs))
+}
+
+// withBufs appends the current write logs of the []byte parameters to a result list
+func (t *trans) withBufs(rs []string) []string {
+	for _, b := range t.bufs {
+		c, _ := t.lookup(b)
+		rs = append(rs, c)
+	}
+	return rs
+}
+
+func (t *trans) isBuf(e ast.Expr) (string, bool) {
+	id, ok := e.(*ast.Ident)
+	if !ok {
+		return "", false
+	}
+	for _, b := range t.bufs {
+		if b == id.Name {
+			return b, true
+		}
+	}
+	return "", false
+}
+
+// assigned collects the plain identifiers a statement list assigns (=, op=, ++, --, buffer writes)
+func (t *trans) assigned(list []ast.Stmt, out map[string]bool) {
+	for _, s := range list {
+		ast.Inspect(s, func(n ast.Node) bool {
+			switch x := n.(type) {
+			case *ast.AssignStmt:
+				for _, l := range x.Lhs {
+					if id, ok := l.(*ast.Ident); ok && id.Name != "_" && x.Tok != token.DEFINE {
+						out[id.Name] = true
+					}
+					if ix, ok := l.(*ast.IndexExpr); ok {
+						if b, ok := t.isBuf(ix.X); ok {
+							out[b] = true
+						}
+					}
+				}
+			case *ast.IncDecStmt:
+				if id, ok := x.X.(*ast.Ident); ok {
+					out[id.Name] = true
+				}
+			case *ast.CallExpr:
+				if len(x.Args) > 0 {
+					if b, ok := t.isBuf(x.Args[0]); ok {
+						out[b] = true
+					}
+				}
+			}
+			return true
+		})
+	}
 }
 
 func tuple(rs []string) string {
@@ -351,7 +428,118 @@ func (t *trans) stmts(list []ast.Stmt, at ast.Node) string {
 		for _, r := range x.Results {
 			rs = append(rs, t.expr(r))
 		}
-		return tuple(rs)
+		return tuple(t.withBufs(rs))
+	case *ast.ExprStmt:
+		// binary.BigEndian.PutUintNN(buf, e): big-endian bytes written at indices 0..NN/8-1
+		if call, ok := x.X.(*ast.CallExpr); ok && len(call.Args) == 2 {
+			if sel, ok := call.Fun.(*ast.SelectorExpr); ok {
+				if in, ok := sel.X.(*ast.SelectorExpr); ok {
+					if pk, ok := in.X.(*ast.Ident); ok && pk.Name == "binary" && in.Sel.Name == "BigEndian" {
+						nb := map[string]int{"PutUint16": 2, "PutUint32": 4, "PutUint64": 8}[sel.Sel.Name]
+						if b, ok := t.isBuf(call.Args[0]); ok && nb > 0 {
+							v := t.expr(call.Args[1])
+							cur, _ := t.lookup(b)
+							tmp := t.fresh("put")
+							var ws []string
+							for k := 0; k < nb; k++ {
+								ws = append(ws, fmt.Sprintf("((%d), wrap_u 8 (Z.shiftr %s (%d)))", k, tmp, 8*(nb-1-k)))
+							}
+							return fmt.Sprintf("let %s := %s in\n  let %s := (%s ++ [%s])%%list in\n  ", tmp, v, t.assign(x, b), cur, strings.Join(ws, "; ")) + t.stmts(rest, at)
+						}
+					}
+				}
+			}
+		}
+		t.fail(x, "unsupported expression statement")
+	case *ast.ForStmt:
+		// for i := a; i < b; i++ { body }   (i and b not assigned in the body, no break/continue/return/goto)
+		init, ok1 := x.Init.(*ast.AssignStmt)
+		cond, ok2 := x.Cond.(*ast.BinaryExpr)
+		post, ok3 := x.Post.(*ast.IncDecStmt)
+		if !ok1 || !ok2 || !ok3 || init.Tok != token.DEFINE || len(init.Lhs) != 1 || cond.Op != token.LSS || post.Tok != token.INC {
+			t.fail(x, "unsupported for statement (only `for i := a; i < b; i++`)")
+		}
+		iv, okA := init.Lhs[0].(*ast.Ident)
+		ci, okB := cond.X.(*ast.Ident)
+		pi, okC := post.X.(*ast.Ident)
+		if !okA || !okB || !okC || ci.Name != iv.Name || pi.Name != iv.Name {
+			t.fail(x, "unsupported for statement (loop variable)")
+		}
+		bad := false
+		ast.Inspect(x.Body, func(n ast.Node) bool {
+			switch n.(type) {
+			case *ast.BranchStmt, *ast.ReturnStmt, *ast.ForStmt, *ast.RangeStmt, *ast.GoStmt, *ast.DeferStmt:
+				bad = true
+			}
+			return true
+		})
+		as := map[string]bool{}
+		t.assigned(x.Body.List, as)
+		boundIDs := map[string]bool{}
+		ast.Inspect(cond.Y, func(n ast.Node) bool {
+			if id, ok := n.(*ast.Ident); ok {
+				boundIDs[id.Name] = true
+			}
+			return true
+		})
+		for n := range as {
+			if n == iv.Name || boundIDs[n] {
+				bad = true
+			}
+		}
+		if bad {
+			t.fail(x, "unsupported for statement (body leaves the loop, or assigns the loop variable or its bound)")
+		}
+		var state []string // Go names of the loop-carried variables, in a fixed order
+		for n := range as {
+			if _, ok := t.lookup(n); ok {
+				state = append(state, n)
+			}
+		}
+		sort.Strings(state)
+		if len(state) == 0 {
+			return t.stmts(rest, at) // a loop without effect on the translated state
+		}
+		from, to := t.expr(init.Rhs[0]), t.expr(cond.Y)
+		loop, k, k1 := t.fresh("loop"), t.fresh("k"), t.fresh("k")
+		var outer []string
+		for _, n := range state {
+			c, _ := t.lookup(n)
+			outer = append(outer, c)
+		}
+		// inside the fix: fresh formal names for the loop variable and the state
+		t.push()
+		iF := t.define(iv.Name)
+		var formals []string
+		for _, n := range state {
+			formals = append(formals, t.assign(x, n))
+		}
+		ity := t.info.Defs[iv].Type()
+		// body with, as its fall-through, the recursive call on the updated state
+		next := t.wrap(iv, ity, "("+iF+" + 1)")
+		saveFall := t.fall
+		t.fall = func() string {
+			var cur []string
+			for _, n := range state {
+				c, _ := t.lookup(n)
+				cur = append(cur, c)
+			}
+			return "(" + loop + " " + k1 + " " + next + " " + strings.Join(cur, " ") + ")"
+		}
+		body := t.stmts(append([]ast.Stmt{}, x.Body.List...), x)
+		t.fall = saveFall
+		t.pop()
+		// after the loop the state variables get fresh names bound to the loop's result
+		var after []string
+		for _, n := range state {
+			after = append(after, t.assign(x, n))
+		}
+		pat := after[0]
+		if len(after) > 1 {
+			pat = "'(" + strings.Join(after, ", ") + ")"
+		}
+		return fmt.Sprintf("let %s := (fix %s (%s : nat) (%s : Z) %s {struct %s} :=\n    match %s with\n    | O => %s\n    | S %s => %s\n    end) in\n  let %s := %s (Z.to_nat (%s - %s)) %s %s in\n  ",
+			loop, loop, k, iF, strings.Join(formals, " "), k, k, tuple(formals), k1, body, pat, loop, to, from, from, strings.Join(outer, " ")) + t.stmts(rest, at)
 	case *ast.BlockStmt:
 		t.push()
 		l := append(append([]ast.Stmt{}, x.List...), &popMarker{})
@@ -391,6 +579,12 @@ func (t *trans) stmts(list []ast.Stmt, at ast.Node) string {
 		v := t.wrap(id, t.info.Types[id].Type, "("+cur+op+"1)")
 		return fmt.Sprintf("let %s := %s in\n  ", t.assign(x, id.Name), v) + t.stmts(rest, at)
 	case *ast.AssignStmt:
+		if len(x.Lhs) == 1 && len(x.Rhs) == 1 && x.Tok == token.ASSIGN {
+			if id, ok := x.Lhs[0].(*ast.Ident); ok && id.Name == "_" {
+				// `_ = buf[k]`: a bounds-check hint; it has no effect on the translated state
+				return t.stmts(rest, at)
+			}
+		}
 		var vals []string
 		if x.Tok == token.DEFINE || x.Tok == token.ASSIGN {
 			if len(x.Lhs) != len(x.Rhs) {
@@ -434,6 +628,15 @@ func (t *trans) stmts(list []ast.Stmt, at ast.Node) string {
 		}
 		var b bytes.Buffer
 		var names []string
+		if len(x.Lhs) == 1 && x.Tok == token.ASSIGN {
+			if ix, ok := x.Lhs[0].(*ast.IndexExpr); ok {
+				if bn, ok := t.isBuf(ix.X); ok {
+					cur, _ := t.lookup(bn)
+					idx := t.expr(ix.Index)
+					return fmt.Sprintf("let %s := (%s ++ [(%s, %s)])%%list in\n  ", t.assign(x, bn), cur, idx, vals[0]) + t.stmts(rest, at)
+				}
+			}
+		}
 		for _, l := range x.Lhs {
 			id, ok := l.(*ast.Ident)
 			if !ok {
@@ -619,7 +822,7 @@ func genFuncs(repo string) (out string, err error) {
 	}()
 	var b bytes.Buffer
 	b.WriteString("(* GENERATED by tools/gotrans (funcs.go) from the repository working tree - do not edit *)\n")
-	b.WriteString("From Coq Require Import ZArith Bool.\nFrom GoMC Require Import Base.GoInt.\nLocal Open Scope Z_scope.\nLocal Open Scope bool_scope.\n\n")
+	b.WriteString("From Coq Require Import ZArith Bool List.\nFrom GoMC Require Import Base.GoInt.\nLocal Open Scope Z_scope.\nLocal Open Scope bool_scope.\nImport ListNotations.\n\n")
 	type pk struct {
 		fset  *token.FileSet
 		files []*ast.File
@@ -659,8 +862,17 @@ func genFuncs(repo string) (out string, err error) {
 			t.used[r] = 1
 		}
 		var params []string
+		var bufInit bytes.Buffer
+		t.recvType = sp.recv
 		addParam := func(n *ast.Ident, ty ast.Expr) {
 			tv := p.info.Types[ty]
+			if sl, ok := tv.Type.Underlying().(*types.Slice); ok && len(sp.locals) == 0 {
+				if bt, ok := sl.Elem().Underlying().(*types.Basic); ok && bt.Kind() == types.Uint8 {
+					t.bufs = append(t.bufs, n.Name)
+					fmt.Fprintf(&bufInit, "let %s := (@nil (Z * Z)) in\n  ", t.define(n.Name))
+					return
+				}
+			}
 			ct, e := coqType(tv.Type)
 			if e != nil {
 				// a parameter of a non-integer type (receiver struct, io.Reader ...): usable only through its fields
@@ -671,6 +883,7 @@ func genFuncs(repo string) (out string, err error) {
 		if fd.Recv != nil {
 			for _, f := range fd.Recv.List {
 				for _, n := range f.Names {
+					t.recvName = n.Name
 					addParam(n, f.Type)
 				}
 			}
@@ -754,13 +967,20 @@ func genFuncs(repo string) (out string, err error) {
 			}
 		}
 		t.nres = len(rts)
-		body := inits.String() + t.stmts(fd.Body.List, fd)
+		for range t.bufs {
+			rts = append(rts, "list (Z * Z)")
+		}
+		body := bufInit.String() + inits.String() + t.stmts(fd.Body.List, fd)
 		for _, fv := range t.free {
 			params = append(params, fmt.Sprintf("(%s : Z)", fv))
 		}
 		fmt.Fprintf(&b, "(* %s, func %s *)\nDefinition %s %s : %s :=\n  %s.\n\n", sp.dir, strings.TrimPrefix(sp.recv+"."+sp.name, "."), cname, strings.Join(params, " "), strings.Join(rts, " * "), body)
-		if sp.recv == "" && len(t.free) == 0 {
-			known[sp.dir][sp.name] = cname
+		if len(t.free) == 0 && len(t.bufs) == 0 {
+			if sp.recv == "" {
+				known[sp.dir][sp.name] = cname
+			} else {
+				known[sp.dir][sp.recv+"."+sp.name] = cname
+			}
 		}
 	}
 	return b.String(), nil
